@@ -1135,6 +1135,10 @@ class TrajectoryStore:
         if '_index' in base_nc_file.dataset[0].groups:
             self.index_group = base_nc_file.dataset[0].groups['_index']
             self.indexable = True
+        else:
+            # An existing store without an index holds trajectories without
+            # flight IDs: that decision was made when it was created.
+            self.indexable = False
 
         # Open any associated NetCDF files.
         for name in self.associated_files:
